@@ -561,8 +561,13 @@ static size_t bundle_ring_length(ring_t *ring)
                   deref(pos+1, ring) << (8*2) |
                   deref(pos+2, ring) << (8*1) |
                   deref(pos+3, ring) << (8*0);
-        if(advance)
+        if(advance) {
+            //the element has to end inside the buffer (and pos must not wrap)
+            if(advance > ring[0].len+ring[1].len ||
+                    pos+4 > ring[0].len+ring[1].len-advance)
+                return 0;
             pos += 4+advance;
+        }
     } while(advance);
 
     return pos <= (ring[0].len+ring[1].len) ? pos : 0;
